@@ -61,7 +61,16 @@ def gen_literal(rng, pool):
             body = None
         else:
             body = gen_body(rng, static, n, rng.range(0, 3))
-        fields.append((n, gen_prio(rng), body) if n != dyn else (n, gen_prio(rng), body, "dyn"))
+        # contracts that depend on (lower-numbered) sibling fields: v >= bound (mostly satisfied), v != bound
+        ctrs = []
+        if rng.chance(1, 4):
+            for _ in range(rng.range(1, 2)):
+                bound = gen_body(rng, static, n, rng.range(0, 1))
+                if rng.chance(3, 5):
+                    ctrs.append(("ge", ("add", bound, ("num", -rng.range(0, 30)))))
+                else:
+                    ctrs.append(("ne", bound))
+        fields.append((n, gen_prio(rng), body, "dyn" if n == dyn else "stat", ctrs))
     return fields
 
 
@@ -85,6 +94,15 @@ def gen_history(rng):
     return steps
 
 
+def fkind(f):
+    """fields are (name, prio, body) | (name, prio, body, "dyn"|"stat") | (name, prio, body, kind, [(ge|ne, tm)...])"""
+    return f[3] if len(f) > 3 else "stat"
+
+
+def fctrs(f):
+    return [tuple(c) for c in f[4]] if len(f) > 4 else []
+
+
 def tm_sexp(t):
     if t[0] == "num":
         return "(num %d)" % t[1]
@@ -101,8 +119,9 @@ def history_sexp(steps):
     out = []
     for s in steps:
         if s[0] == "lit":
-            out.append("(lit%s)" % "".join(" (%s%d %s %s)" % ("dyn " if len(f) > 3 else "", f[0], prio_sexp(f[1]),
-                                                                  tm_sexp(f[2]) if f[2] is not None else "_")
+            out.append("(lit%s)" % "".join(" (%s%d %s %s%s)" % ("dyn " if fkind(f) == "dyn" else "", f[0], prio_sexp(f[1]),
+                                                                    tm_sexp(f[2]) if f[2] is not None else "_",
+                                                                    "".join(" (%s %s)" % (k, tm_sexp(t)) for (k, t) in fctrs(f)))
                                             for f in s[1]))
         else:
             out.append("(merge %d %d)" % (s[1], s[2]))
@@ -135,13 +154,16 @@ def prio_nickel(p):
 def literal_nickel(fields):
     if not fields:
         return "{}"
-    return "{ " + ", ".join("%s%s%s" % (LET[f[0]] if len(f) == 3 else "\"%%{dn_%s}\"" % LET[f[0]], prio_nickel(f[1]),
-                                        " = " + tm_nickel(f[2]) if f[2] is not None else "")
+    return "{ " + ", ".join("%s%s%s%s" % (LET[f[0]] if fkind(f) != "dyn" else "\"%%{dn_%s}\"" % LET[f[0]], prio_nickel(f[1]),
+                                          "".join(" | %s %s" % ("Ge" if k == "ge" else "Ne", tm_nickel(t)) for (k, t) in fctrs(f)),
+                                          " = " + tm_nickel(f[2]) if f[2] is not None else "")
                             for f in fields) + " }"
 
 
 def history_prefix(steps):
     out = ["let dn_%s = \"%s\" in" % (c, c) for c in LET]
+    out.append("let Ge = fun lo => std.contract.from_predicate (fun v => v >= lo) in")
+    out.append("let Ne = fun lo => std.contract.from_predicate (fun v => v != lo) in")
     for i, s in enumerate(steps):
         if s[0] == "lit":
             out.append("let s%d = %s in" % (i, literal_nickel(s[1])))
